@@ -88,7 +88,7 @@ pub fn act_flashloan(sim: &mut Sim, ctx: &mut Ctx) -> Option<Tx> {
     ixs.extend(inner);
     ixs.push(ix::end_flashloan(ma, u.authority, end_metas.clone()));
     // shape faults
-    match ctx.rng.below(18) {
+    match ctx.rng.below(19) {
         16 => {
             // the named "end" is a look-alike: a foreign program's instruction carrying the
             // end_flashloan discriminator and this account first - no real end anywhere
@@ -158,6 +158,19 @@ pub fn act_flashloan(sim: &mut Sim, ctx: &mut Ctx) -> Option<Tx> {
         4 => {
             ixs[start_pos].wrapper = Some(ctx.world.bad_foreign);
             sim.stats.fault("tx_flashloan_start_via_cpi");
+        }
+        18 => {
+            // an end reached through a wrapper CPI in the middle of the bracket (while the account
+            // is still healthy), then a fresh start: the named top-level end is genuine, so only
+            // the end handler's own CPI refusal stands in the way
+            let mut cpi_end = ix::end_flashloan(ma, u.authority, risk_metas(&sim.store, &ma, None, None));
+            cpi_end.wrapper = Some(ctx.world.bad_foreign);
+            ixs.insert(start_pos + 1, cpi_end);
+            ixs.insert(start_pos + 2, ix::start_flashloan(ma, u.authority, 0));
+            let n = ixs.len();
+            ixs[start_pos] = ix::start_flashloan(ma, u.authority, (n - 1) as u64);
+            ixs[start_pos + 2] = ix::start_flashloan(ma, u.authority, (n - 1) as u64);
+            sim.stats.fault("tx_flashloan_cpi_end_mid_bracket_then_restart");
         }
         5 => {
             let n = ixs.len();
